@@ -1,8 +1,8 @@
 (* Non-vacuity of the hypotheses used by the C13 theorems: the field laws hold for the carrier Qc that the
    correspondence executes, the oracle contracts are met by concrete routines, and a concrete data set. *)
-From Coq Require Import List Arith Lia PeanoNat ZArith QArith Qcanon Bool Ring.
+From Coq Require Import List Arith Lia PeanoNat ZArith QArith Qcanon Bool Ring Permutation.
 From TV Require Import Num.Ops Lin.Tab Lin.BigSum Lin.Mat TT.Chain Model.ActOne Model.Anova Model.AnovaFunc
-  Proofs.AnovaP Proofs.Anova2P Proofs.AnovaFuncP.
+  Proofs.AnovaP Proofs.Anova2P Proofs.AnovaFuncP Proofs.AnovaAddP.
 Import ListNotations.
 
 Lemma Qc_div_law : forall a b : Qc, b <> o0 OQc -> omul OQc (odiv OQc a b) b = a.
@@ -53,3 +53,14 @@ Lemma ex_stats : exists M, ANOVA OQc exI exy 1 = Ok M /\
   ranks (cores_1 OQc M 3 (o0 OQc) (fun _ _ _ _ => o0 OQc)) = [1; 3; 1]%nat /\
   this (get OQc (cores_1 OQc M 3 (o0 OQc) (fun _ _ _ _ => o0 OQc)) [1; 1]%nat) = 143 # 28.
 Proof. eexists. split; [reflexivity|]. vm_compute. repeat split. Qed.
+
+(* a shuffled full grid *)
+Definition exG : list (list Z) := [[4; 7]; [0; 5]; [4; 9]; [0; 9]; [4; 5]; [0; 7]]%Z.
+Lemma exG_full : Permutation exG (grid (domain exG)) /\ dimI exG = 2%nat.
+Proof.
+  split; [|reflexivity]. change (grid (domain exG)) with [[0; 5]; [0; 7]; [0; 9]; [4; 5]; [4; 7]; [4; 9]]%Z. unfold exG.
+  apply (NoDup_Permutation).
+  - repeat constructor; cbn; intuition discriminate.
+  - repeat constructor; cbn; intuition discriminate.
+  - intros x. cbn. intuition.
+Qed.
